@@ -17,6 +17,10 @@ import multiprocessing
 
 HERE = os.path.dirname(os.path.dirname(os.path.abspath(__file__)))
 sys.dont_write_bytecode = True
+try:
+    sys.set_int_max_str_digits(0)
+except Exception:
+    pass
 sys.path.insert(0, HERE)
 PY = '/venv/bin/python'
 REPO = os.environ.get('VERIF_REPO', '/repo')
